@@ -121,6 +121,18 @@ Lemma cntP_nil i : cntP i [] = 0.  Proof. reflexivity. Qed.
 Ltac lv := unfold live, set_processing in *; cbn [fst simple delayed dead processing] in *;
            rewrite ?cnt_app, ?cntP_app, ?cnt_single, ?cntP_cons, ?cntP_nil in *; cbn [hd_msg] in *.
 
+(* the full turn of the waiting list: nothing appears, nothing disappears *)
+Lemma scan_cnt i q topics now l d f k :
+  scan q topics now l = (d, f, k) ->
+  cnt i l = cnt i d + match f with Some m => ind (is_id i m) | None => 0 end + cnt i k.
+Proof.
+  revert d f k. induction l as [|m r IH]; cbn [scan]; intros d f k H.
+  - inversion H; subst. rewrite !cnt_nil. lia.
+  - destruct (scan q topics now r) as [[d0 f0] k0]. specialize (IH _ _ _ eq_refl).
+    destruct (in_queue q m); [destruct (msg_overdue m now); [|destruct (topic_ok topics m)]|];
+      inversion H; subst; rewrite ?cnt_cons, ?cnt_nil; lia.
+Qed.
+
 Lemma live_poll i s c q ct topics now upd : live i (fst (poll s c q ct topics now upd)) = live i s.
 Proof.
   unfold poll.
@@ -129,9 +141,8 @@ Proof.
   set (s2 := mkS (simple s1) (delayed s1) (dead s1) (processing s1) (gone s1) (stamp s1) (Z.max (clk s1) now)).
   assert (H2 : live i s2 = live i s) by (unfold s2; rewrite live_clk; exact H1).
   clearbody s2. clear H1. destruct ct.
-  - destruct (take_first (in_queue q) (simple s2)) as [[m rest]|] eqn:E; [|exact H2].
-    pose proof (take_first_cnt i _ _ _ _ E) as Hc.
-    destruct (msg_overdue m now); [|destruct (negb (topic_ok topics m))]; lv; lia.
+  - destruct (scan q topics now (simple s2)) as [[d f] k] eqn:E.
+    pose proof (scan_cnt i _ _ _ _ _ _ _ E) as Hc. destruct f as [m|]; lv; lia.
   - destruct (min_key q (delayed s2)) as [k|]; [|exact H2].
     destruct (d_pop q k (delayed s2)) as [[m d']|] eqn:E; [|exact H2].
     pose proof (d_pop_cnt i _ _ _ _ _ E) as Hc. lv. lia.
